@@ -3,8 +3,21 @@ package exec
 import (
 	"sort"
 
+	"github.com/ChrisTrenkamp/xsel/node"
 	"github.com/ChrisTrenkamp/xsel/store"
 )
+
+// isAttributeOrNamespace reports whether the cursor is an attribute or
+// namespace node. Those are not children of their parent: they have no
+// siblings, and their parent's content follows them in document order.
+func isAttributeOrNamespace(cursor store.Cursor) bool {
+	switch cursor.Node().(type) {
+	case node.Attribute, node.Namespace:
+		return true
+	}
+
+	return false
+}
 
 func unique(s []store.Cursor) []store.Cursor {
 	if len(s) == 0 {
@@ -149,6 +162,11 @@ func appendFollowing(cursor store.Cursor, result []store.Cursor) []store.Cursor 
 
 	parent := cursor.Parent()
 
+	if isAttributeOrNamespace(cursor) {
+		result = appendDescendant(parent, result)
+		return appendFollowing(parent, result)
+	}
+
 	found := false
 
 	for _, i := range parent.Children() {
@@ -181,19 +199,21 @@ func appendFollowingSibling(cursor store.Cursor, result []store.Cursor) []store.
 		return result
 	}
 
+	if isAttributeOrNamespace(cursor) {
+		return result
+	}
+
 	parent := cursor.Parent()
 
 	children := parent.Children()
-	start := 0
 
 	for i := range children {
 		if children[i].Pos() == cursor.Pos() {
-			start = i
-			break
+			return append(result, children[i+1:]...)
 		}
 	}
 
-	return append(result, children[start+1:]...)
+	return result
 }
 
 func selectNamespace(nodeSet NodeSet) Result {
@@ -236,6 +256,10 @@ func appendPreceding(cursor store.Cursor, result []store.Cursor) []store.Cursor 
 
 	parent := cursor.Parent()
 
+	if isAttributeOrNamespace(cursor) {
+		return appendPreceding(parent, result)
+	}
+
 	found := false
 	children := parent.Children()
 
@@ -265,7 +289,7 @@ func selectPrecedingSibling(nodeSet NodeSet) Result {
 }
 
 func appendPrecedingSibling(cursor store.Cursor, result []store.Cursor) []store.Cursor {
-	if cursor.Pos() == 0 {
+	if cursor.Pos() == 0 || isAttributeOrNamespace(cursor) {
 		return result
 	}
 
